@@ -8,7 +8,7 @@
 From Coq Require Import ZArith List Bool Lia.
 From Coq Require String.
 Import String.StringSyntax.
-From CV Require Import Base.Val Base.Bytes Base.Tys Gen.Tables Gen.EdsTables Gen.Src Model.Eds Model.RefEds Proofs.Eds_proofs Proofs.Src_eq_eds.
+From CV Require Import Base.Val Base.Bytes Base.Tys Gen.Tables Gen.EdsTables Gen.SrcC08 Model.Eds Model.RefEds Proofs.Eds_proofs Proofs.Src_eq_eds.
 Import ListNotations.
 Open Scope Z_scope.
 
@@ -111,7 +111,7 @@ Example C08_nv_values :
 Proof. vm_compute. repeat split; reflexivity. Qed.
 
 (* Tie to the source text: eds._signed_int_from_hex and eds._calc_bit_length as translated from the CURRENT
-   source by tools/py2coq.py (Gen/Src.v, regenerated on every run) are the model's conversion and the
+   source by tools/py2coq.py (Gen/SrcC08.v, regenerated on every run) are the model's conversion and the
    regenerated CALC_BIT_LENGTH table (evaluated from the running code) on every data type 0..255. *)
 Theorem C08_source_signed_int_is_model : forall t bits n, 1 <= bits -> int0 t = Some n ->
   signed_int_from_hex t bits = Some (src_signed_int_from_hex n bits).
